@@ -26,6 +26,8 @@ def obligations(tier):
                          encodes=["ABT_eventual_wait", "ABT_eventual_set", "ABT_eventual_test", "ABT_future_wait", "ABT_future_set", "ABT_future_test", "ABTI_waitlist_wait_and_unlock", "ABTI_waitlist_broadcast"],
                          bounds="<=2 racing sets, <=1 environment step per scheduling point, <=3 while parked, 0..3 compartments", symbolic="initial readiness/counter, values, placement of every environment step",
                          timeout=600 if tier == "thorough" else 200))
+    o.append(Obl("reset_any_state", "C09/reset.c", "ABT_future_reset on a future with n compartments of which k are set (n, k symbolic: unset, PARTIALLY set, ready) and ABT_eventual_reset: afterwards nothing counts as set, test reports not ready, lock released",
+                 unwind=3, unwindset=["ABTD_spinlock_acquire.0:2", "ABTD_spinlock_acquire.1:2"], object_bits=10, backend="cadical", encodes=["ABT_future_reset", "ABT_future_test", "ABT_eventual_reset"], bounds="n <= 4", symbolic="n, k, eventual readiness"))
     o += deepen([x for x in o if x.hooks], tier)
     return o
 
